@@ -977,6 +977,11 @@ class HTTPResponse(BaseHTTPResponse):
         flush_decoder = amt is None or (amt != 0 and not data)
 
         if not data and len(self._decoded_buffer) == 0:
+            # The end of the body, with nothing left to hand out. If earlier
+            # reads of this body went through the decoder it still has to be
+            # flushed: an incomplete stream is only noticed then.
+            if flush_decoder and decode_content and self._has_decoded_content:
+                data = self._decode(data, decode_content, flush_decoder)
             return data
 
         if amt is None:
